@@ -2,7 +2,7 @@
 # confirm_mutant.sh <ID> <k> : in the scratch worktree /tmp/mut-<ID>, confirm that
 # patch<k>.diff applies to the current /repo HEAD, the suite still passes with it,
 # the demo fails with it and passes without it.  Writes OUT/confirm<k>.txt
-ID=$1; K=$2; WT=/tmp/mut-$ID; OUT=$WT/OUT; LOG=$OUT/confirm$K.txt
+ID=$1; K=$2; WT=/tmp/mut-$ID; OUT=$WT/${OUTDIR:-OUT}; LOG=$OUT/confirm$K.txt
 exec > $LOG 2>&1
 cd $WT || exit 9
 H=$(git -C /repo rev-parse HEAD)
